@@ -170,8 +170,10 @@ edn_value_t* edn_read_metadata(edn_parser_t* parser) {
         }
 
         /* First, copy all new entries (highest precedence) */
-        memcpy(merged_keys, new_keys, new_entries_count * sizeof(edn_value_t*));
-        memcpy(merged_values, new_values, new_entries_count * sizeof(edn_value_t*));
+        if (new_entries_count > 0) {
+            memcpy(merged_keys, new_keys, new_entries_count * sizeof(edn_value_t*));
+            memcpy(merged_values, new_values, new_entries_count * sizeof(edn_value_t*));
+        }
         size_t merged_count = new_entries_count;
 
         /* Then, copy existing entries that don't have matching keys in new metadata */
